@@ -29,7 +29,7 @@ import (
 
 func init() {
 	registerDirective()
-	lib.Register(&lib.Prop{ID: "C18", Level: "exploration", Run: run})
+	lib.Register(&lib.Prop{ID: "C18", Level: "exploration", Run: run, Sub: map[string]func([]string) int{"fault": faultChild}})
 }
 
 // ------------------------------------------------------------------- sites
@@ -761,6 +761,7 @@ func run(c *lib.Ctx) {
 	close(ch)
 	wg.Wait()
 	c.Set("concurrent_connections", workers)
+	faultPhase(c)
 
 	// floors: a run that did not see compression happen, pre-coded
 	// responses pass, siblings being served and the min_length filter
